@@ -11,7 +11,7 @@ import numpy as np
 import z3
 
 from pyvc import sym
-from pyvc.sym import lift
+from pyvc.sym import lift, frac_eq
 from pyvc.interp import PyRaise, _det_inv
 from pyvc.oblig import obligation, verify, bounded, Goal, merge
 from .common import stable_rng, quick
@@ -453,6 +453,107 @@ def _solver_checks(s, ch, Kk, Ns, P, tol=1e-6, exact_power=True, aligned=False, 
                     if not (leak <= 1e-8):
                         return {"closed form does not null cross interference": [k, l, float(leak)]}
     return None
+
+
+@obligation("closed_form/structure_of_the_alignment_solution", timeout=300,
+            desc="ClosedFormIASolver._calc_E / _updateF / _updateW (K = 3, 2 x 2 complex symbolic channels, one stream each) with the library "
+                 "routines as abstract callees (solve, eig, pinv, leig return arbitrary symbolic results; their arguments are recorded): the "
+                 "alignment matrix is solve(H31, H32) solve(H12, H13) solve(H23, H21); F1 is the first eigenvector eig returns for exactly "
+                 "that matrix, F2 = pinv(H32) H31 F1 and F3 = pinv(H23) H21 F1 up to positive scaling, each normalised to unit Frobenius "
+                 "norm; the receive filter of user 1 / 2 / 3 is what leig returns (one vector) for a a^H with a = H12 F2 / H21 F1 / H31 F1.  "
+                 "Together with lemma L-ALIGN (Lean, thorough tier: E v = lambda v with these definitions implies H13 F3 = lambda H12 F2, "
+                 "H23 F3 = H21 F1, H32 F2 = H31 F1 - so a filter orthogonal to a is orthogonal to BOTH interferers) and the selector contract "
+                 "of leig (C20) this is perfect nulling of all cross-user interference")
+def ob_closed_form_structure():
+    def body(c, it):
+        import pyphysim.ia.algorithms as alg
+        import pyphysim.channels.multiuser as mu
+        import pyphysim.util.misc as misc
+        from .C20 import _meq
+        big = _cmat(c, "H", 6, 6)
+        ch = it.call(mu.MultiUserChannelMatrix, [])
+        it.call(it.getattr(ch, "init_from_channel_matrix"), [big, np.array([2, 2, 2]), np.array([2, 2, 2]), 3])
+
+        def blk(k, l):
+            return big[2 * k:2 * k + 2, 2 * l:2 * l + 2]
+
+        def same(A, B):
+            A, B = np.asarray(A, dtype=object), np.asarray(B, dtype=object)
+            return A.shape == B.shape and all(x is y for x, y in zip(A.flat, B.flat))
+        solves, eigs, pinvs, leigs = [], [], [], []
+
+        def m_solve(interp, A, B):
+            X = _cmat(c, "X%d" % len(solves), 2, 2)
+            solves.append((A, B, X))
+            return X
+
+        def m_eig(interp, A):
+            Dv = np.array([c.var("d0", "complex"), c.var("d1", "complex")], dtype=object)
+            Vm = _cmat(c, "V", 2, 2)
+            eigs.append((np.asarray(A, dtype=object), Dv, Vm))
+            return Dv, Vm
+
+        def m_pinv(interp, A, *a, **k):
+            X = _cmat(c, "P%d" % len(pinvs), 2, 2)
+            pinvs.append((A, a, k, X))
+            return X
+
+        def m_leig(interp, A, n):
+            w = _cmat(c, "w%d" % len(leigs), 2, 1)
+            leigs.append((np.asarray(A, dtype=object), n, w))
+            return w, None
+        it.models[np.linalg.solve] = m_solve
+        it.models[np.linalg.eig] = m_eig
+        it.models[np.linalg.pinv] = m_pinv
+        it.models["pyphysim.util.misc:leig"] = m_leig
+        it.models[misc.leig] = m_leig
+        s = it.call(alg.ClosedFormIASolver, [ch])
+        it.setattr(s, "_Ns", np.array([1, 1, 1]))
+        it.call(it.getattr(s, "_updateF"), [])
+        goals = [Goal("three linear systems, one eigen-decomposition, two pseudo-inverses", len(solves) == 3 and len(eigs) == 1 and len(pinvs) == 2)]
+        if not goals[0].cond:
+            return goals
+        want = [((2, 0), (2, 1)), ((0, 1), (0, 2)), ((1, 2), (1, 0))]
+        goals.append(Goal("solve(H31, H32), solve(H12, H13), solve(H23, H21)",
+                          all(same(solves[i][0], blk(*want[i][0])) and same(solves[i][1], blk(*want[i][1])) for i in range(3))))
+        X = [x[2] for x in solves]
+        goals.append(Goal("eig is asked for their product in this order", _meq(eigs[0][0], X[0].dot(X[1].dot(X[2])))))
+        goals.append(Goal("pinv(H32) and pinv(H23) with the default cut-off",
+                          same(pinvs[0][0], blk(2, 1)) and same(pinvs[1][0], blk(1, 2)) and all(not p[1] and not p[2] for p in pinvs)))
+        V = eigs[0][2]
+        v0 = V[:, 0:1]
+        raw = [v0, pinvs[0][3].dot(blk(2, 0).dot(v0)), pinvs[1][3].dot(blk(1, 0).dot(v0))]
+        F = [np.asarray(x, dtype=object) for x in it.getattr(s, "_F")]
+        for k in range(3):
+            goals.append(Goal("precoder %d: shape 2 x 1" % k, F[k].shape == (2, 1)))
+            if F[k].shape != (2, 1):
+                return goals
+            e = _abs2(F[k][0, 0]) + _abs2(F[k][1, 0])
+            goals.append(Goal("precoder %d has unit norm" % k, frac_eq(e, 1)))
+            n2 = _abs2(raw[k][0, 0]) + _abs2(raw[k][1, 0])
+            goals.append(Goal("precoder %d is %s scaled by 1/norm" % (k, ["the first eigenvector", "pinv(H32) H31 F1", "pinv(H23) H21 F1"][k]),
+                              _meq(F[k] * lift(n2).to_real().sqrt(), raw[k])))
+        it.call(it.getattr(s, "_updateW"), [])
+        goals.append(Goal("three receive filters requested, one vector each", len(leigs) == 3 and all(n == 1 for _, n, _ in leigs)))
+        if len(leigs) != 3:
+            return goals
+        a = [blk(0, 1).dot(F[1]), blk(1, 0).dot(F[0]), blk(2, 0).dot(F[0])]
+        W = it.getattr(s, "_W")
+        for k in range(3):
+            goals.append(Goal("receiver %d: leig is asked for a a^H with a = %s" % (k, ["H12 F2", "H21 F1", "H31 F1"][k]),
+                              _meq(leigs[k][0], a[k].dot(_conjT(a[k])))))
+            goals.append(Goal("receiver %d: the filter is the vector leig returned" % k, same(W[k], leigs[k][2])))
+        return goals
+    return verify(body, check_side=False, timeout_ms=120000)
+
+
+@obligation("lemma/alignment_lean", kind="lemma", tiers=("thorough",), timeout=2400,
+            desc="L-ALIGN (Lean 4 + Mathlib, lemmas/Alignment.lean): for square matrices over a field with H31, H32, H12, H23 invertible, "
+                 "E = H31^-1 H32 H12^-1 H13 H23^-1 H21 and E v = lambda v, the vectors F2 = H32^-1 H31 v and F3 = H23^-1 H21 v satisfy "
+                 "H13 F3 = lambda H12 F2, H23 F3 = H21 v, H32 F2 = H31 v; hence w^H (H12 F2) = 0 implies w^H (H13 F3) = 0")
+def ob_lemma_align_lean():
+    from pyvc.oblig import lean_lemma
+    return lean_lemma("Alignment.lean", 2000)
 
 
 @obligation("solvers/closed_form", kind="bounded", timeout=600,
